@@ -117,6 +117,34 @@ def diff_main(a: int, b: int, c: int, d: int, quiet: bool) -> bool:
     return has_k == want_k and has_l == want_l and ("l[1]" not in text)
 
 
+ROOTS = [None, 0, False, "", 0.0, 1, "x", True]
+
+
+def diff_roots(k: int) -> bool:
+    """yaml-diff on documents whose root is a scalar (null, falsy and truthy values): exit 0 iff data-equal."""
+    k = realize(k)
+    lk, rk = k % len(ROOTS), k // len(ROOTS)
+    lhs, rhs = ROOTS[lk], ROOTS[rk]
+    saved = (Parsers.get_yaml_multidoc_data, yd.isfile)
+    docs = {"l.yaml": lhs, "r.yaml": rhs}
+    Parsers.get_yaml_multidoc_data = staticmethod(lambda parser, logger, source, **kw: iter([(docs[source], True)]))
+    yd.isfile = lambda p: True
+    try:
+        with _argv(["yaml-diff", "l.yaml", "r.yaml"]) as (out, err):
+            code = _run(yd.main)
+    finally:
+        (Parsers.get_yaml_multidoc_data, yd.isfile) = saved
+
+    def norm(x):
+        return None if (isinstance(x, str) and x == "") else x     # an empty-string document is read as empty (null)
+    a, b = norm(lhs), norm(rhs)
+    equal = (a is None and b is None) or (a is not None and b is not None and type(a) is type(b) and a == b)
+    note(left=repr(lhs), right=repr(rhs), exit_status=code, stdout=out.getvalue())
+    if type(a) is not type(b) and a is not None and b is not None and a == b:
+        return True        # 0 vs False vs 0.0: whether these are 'data-equal' is not settled here
+    return (code == 0) == equal
+
+
 def validate_main(n1: int, n2: int, bad1: int, bad2: int) -> bool:
     """yaml-validate exits 0 exactly when every document of every file loads."""
     def stream(n, bad):
@@ -155,6 +183,8 @@ def shards(tier, seed):
                      [("a", "int"), ("b", "int"), ("c", "int"), ("d", "int"), ("quiet", "bool")],
                      ["-1 <= a <= 1 and -1 <= b <= 1 and -1 <= c <= 1 and -1 <= d <= 1"], family="diff", budget=1800,
                      desc="yaml-diff main(): exit status 0 iff data-equal; report names exactly the changed leaves"))
+    out.append(shard(PID, "diff_roots", "harness.c16", "diff_roots(k)", [("k", "int")], ["0 <= k < %d" % (len(ROOTS) ** 2)],
+                     family="diff", budget=900, kind="S", desc="yaml-diff over scalar root documents (null, falsy, truthy)"))
     out.append(shard(PID, "validate", "harness.c16", "validate_main(n1, n2, bad1, bad2)",
                      [("n1", "int"), ("n2", "int"), ("bad1", "int"), ("bad2", "int")],
                      ["1 <= n1 <= 3 and 1 <= n2 <= 3", "-1 <= bad1 <= 3 and -1 <= bad2 <= 3"], family="validate", budget=900,
